@@ -31,7 +31,12 @@ class Ref:
         return cur
 
     def setq(self, t, q):
-        # q in force on [t, next later change), nothing else changes
+        # q in force on [t, next later change), nothing else changes.  A "change" is a time where the step function
+        # was given a value that differed from the one in force: setting the duration already in force at a time
+        # without an entry leaves the state as it is (the property speaks of changes; the implementation documents
+        # "unless it is redundant") and therefore does not bound a later set at an earlier time.
+        if not any(ct == t for (ct, cq) in self.q) and self.in_force(t) == q:
+            return
         new = [(ct, cq) for (ct, cq) in self.q if ct != t]
         new.append((t, q))
         new.sort(key=lambda e: e[0])
@@ -369,7 +374,7 @@ HARNESSES = [
         make=make,
         instances=_instances,
         models=["syminterp"],
-        budget={"quick": 300.0, "thorough": 900.0},
+        budget={"quick": 300.0, "thorough": 2400.0},
         functions=["Part.add", "Part.remove", "Part._add_point", "Part._remove_point", "Part._cleanup_point",
                    "Part.get_point", "Part.get_or_add_point", "Part.set_quarter_duration", "Part.quarter_durations",
                    "Part.quarter_duration_map", "Part.iter_all", "Part.first_point", "Part.last_point",
